@@ -178,6 +178,7 @@ type State struct {
 	dead         bool
 	havocEpoch   int
 	released     []*Term
+	releasedPool []string // the pool each released object went into (parallel to released)
 	underHavoc   []*Term
 	qfacts       []qfact
 	qdone        map[string]bool
@@ -205,6 +206,7 @@ func (s *State) clone() *State {
 		c.qdone[k] = v
 	}
 	c.released = append([]*Term(nil), s.released...)
+	c.releasedPool = append([]string(nil), s.releasedPool...)
 	for _, f := range s.frames {
 		c.frames = append(c.frames, f.clone())
 	}
